@@ -27,6 +27,7 @@ Definition val_result (o : op) (pre : var -> list Z) : option (var * list Z) := 
   | ONreverse src dst => Some (dst, rev (pre src))
   | ONconc a b dst => Some (dst, pre a ++ pre b)
   | OSort src dst => Some (dst, isort (pre src))
+  | ORemove x src dst => Some (dst, filter (fun y => negb (Z.eqb x y)) (pre src))
   end.
 
 (* ---- (b) structure: cons cells with cdr pointers only ---- *)
@@ -65,7 +66,7 @@ Definition cstep (c : cstate) (o : op) : cstate :=
   | OLast src dst => cset c dst (last_cell c src)                                   (* shares the last cons *)
   | OButlast src dst => let '(c1, p) := chain c (length (reach c src) - 1) None in cset c1 dst p
   | OSubseq b e src dst => let '(c1, p) := chain c (e - b) None in cset c1 dst p    (* subseq copies *)
-  | OCopy src dst | OReverse src dst => let '(c1, p) := chain c (length (reach c src)) None in cset c1 dst p
+  | OCopy src dst | OReverse src dst | ORemove _ src dst => let '(c1, p) := chain c (length (reach c src)) None in cset c1 dst p
   | OAppend a b dst => let '(c1, p) := chain c (length (reach c a)) (cget c b) in cset c1 dst p   (* shares the last argument *)
   | OAdd src _ dst =>                                                               (* destructive: like nconc with a one-element list *)
       let '(c1, p) := chain c 1 None in
@@ -98,7 +99,7 @@ Definition extending (o : op) : bool :=
 Definition dst_of (o : op) : var :=
   match o with
   | OList _ d | OCons _ _ d | OCdr _ d | ONthcdr _ _ d | OLast _ d | OButlast _ d | OSubseq _ _ _ d | OCopy _ d
-  | OReverse _ d | OAppend _ _ d | OAdd _ _ d | ONreverse _ d | ONconc _ _ d | OSort _ d => d
+  | OReverse _ d | OAppend _ _ d | OAdd _ _ d | ONreverse _ d | ONconc _ _ d | OSort _ d | ORemove _ _ d => d
   | OPush _ v | OPop v | OSetcar v _ | OSetnth v _ _ => v
   end.
 Fixpoint prefix (a b : list Z) : bool :=
